@@ -444,7 +444,8 @@ func c05InitialCase(thorough bool) func(i int) explore.CaseResult {
 		cl := i / 12
 		dcid := c05Pattern(pat, cl)
 		connID := protocol.ParseConnectionID(dcid)
-		tag := fmt.Sprintf("initial:%s:%s:cidlen=%d:pattern=%d", c05VName(v), pers, cl, pat)
+		tag := fmt.Sprintf("initial:%s:%s", c05VName(v), pers)
+		where := fmt.Sprintf("DCID %x", dcid)
 		sealer, _ := handshake.NewInitialAEAD(connID, pers, v)
 		_, opener := handshake.NewInitialAEAD(connID, pers.Opposite(), v)
 		u := newPacketUnpacker(&c05CS{initial: opener}, 0)
@@ -480,6 +481,7 @@ func c05InitialCase(thorough bool) func(i int) explore.CaseResult {
 						hdr.DestConnectionID, hdr.SrcConnectionID = hdr.SrcConnectionID, protocol.ParseConnectionID(c05Pattern(2, (cl*5+1)%21))
 					}
 					if fl := c05CheckLong(tag, hdr, sz, sealer, u, keys, v, largest); fl != nil {
+						fl.What = where + ": " + fl.What
 						return explore.CaseResult{Outcome: "FAIL " + fl.Key, Fail: fl, Replay: i}
 					}
 					largest = int64(pn)
@@ -527,7 +529,7 @@ func c05LevelsCase(thorough bool) func(i int) explore.CaseResult {
 		largest := int64(-1)
 		var n int64
 		if k < 21 { // 1-RTT, destination connection ID length k
-			tag := fmt.Sprintf("1rtt:%s:%s:cidlen=%d", c05VName(v), c05SuiteName(suite), k)
+			tag := fmt.Sprintf("1rtt:%s:%s", c05VName(v), c05SuiteName(suite))
 			connID := protocol.ParseConnectionID(c05Pattern(2, k))
 			snd := handshake.VerifC05New1RTT(suite, secret, other, v)
 			rcv := handshake.VerifC05New1RTT(suite, other, secret, v)
@@ -551,7 +553,7 @@ func c05LevelsCase(thorough bool) func(i int) explore.CaseResult {
 			k -= len(c05LongCIDLens)
 		}
 		cl := c05LongCIDLens[k]
-		tag := fmt.Sprintf("%s:%s:%s:cidlen=%d", typ, c05VName(v), c05SuiteName(suite), cl)
+		tag := fmt.Sprintf("%s:%s:%s", typ, c05VName(v), c05SuiteName(suite))
 		sealer, opener := handshake.VerifC05NewLong(suite, secret, v)
 		cs := &c05CS{hs: opener}
 		if typ == protocol.PacketType0RTT {
